@@ -266,3 +266,11 @@ def run(ctx):
         raise MachineryError("the reference implementation disagrees with spec/Varint.tla: %r" % bad_ref[:2])
     ctx.notes["events_by_op"] = {op: sum(1 for e in events if e["op"] == op) for op in ("enc", "dec", "field", "fielddec")}
     ctx.notes["exhaustive_encode_below"] = bound
+
+
+def redrive(ev):
+    if ev["op"] == "enc":
+        return enc_event(av.unint(ev["n"]))
+    if ev["op"] == "dec":
+        return dec_event((bytes(ev["b"]), ev["pos"], ev["fn"]))
+    return None
